@@ -609,7 +609,7 @@ def monitor(case):
         u0 = impl["urls"][0]
         ep = base + "sessions/" + inp["site"] + ("/ts/" if inp["timeseries"] else "")
         if not u0.startswith(ep + "?"):
-            return "first URL %r does not address %r" % (u0, ep)
+            return "first URL %r is not %r followed by a query string" % (u0, ep)
         args = u0[len(ep) + 1:].split("&") if op == "get_sessions" else None
         if op == "get_sessions":
             want = []
